@@ -370,13 +370,14 @@ class Runner:
             elif kind == 'raw_encoded':
                 self.T[op[1]].feed_encoded(op[2])
             elif kind == 'enter':
-                res['ret'] = d.api('enter_room', self.sid_of(op[1]), op[2],
-                                   namespace=op[3])
+                res['ret'] = d.api('enter_room', self.sid_of(op[1]),
+                                   self.resolve(op[2]), namespace=op[3])
             elif kind == 'leave':
-                res['ret'] = d.api('leave_room', self.sid_of(op[1]), op[2],
-                                   namespace=op[3])
+                res['ret'] = d.api('leave_room', self.sid_of(op[1]),
+                                   self.resolve(op[2]), namespace=op[3])
             elif kind == 'close_room':
-                res['ret'] = d.api('close_room', op[1], namespace=op[2])
+                res['ret'] = d.api('close_room', self.resolve(op[1]),
+                                   namespace=op[2])
             elif kind == 'sdisc':
                 res['ret'] = d.api('disconnect', self.sid_of(op[1]),
                                    namespace=op[2])
